@@ -11,22 +11,8 @@ Definition nb (b : byte) : N := Byte.to_N b.
 Definition isdigit (b : byte) : bool := ((48 <=? nb b) && (nb b <=? 57))%N.
 Fixpoint cut_nul (s : str) : str := match s with [] => [] | c :: r => if (nb c =? 0)%N then [] else c :: cut_nul r end.
 
-Definition LONG_MAXZ := 9223372036854775807.
-Fixpoint digits (s : str) (acc : Z) : Z * str :=
-  match s with c :: r => if isdigit c then digits r (Z.min (acc * 10 + Z.of_N (nb c - 48)) (LONG_MAXZ + 1)) else (acc, s) | [] => (acc, []) end.
-
 (* strtol(line, &sep, 10) followed by the (int) narrowing; returns id and the text at sep *)
-Definition strtol10 (line : str) : Z * str :=
-  let s := skipws line in
-  let '(neg, s1) := match s with c :: r => if (nb c =? 45)%N then (true, r) else if (nb c =? 43)%N then (false, r) else (false, s) | [] => (false, s) end in
-  match s1 with
-  | c :: _ => if isdigit c then
-                let '(v, rest) := digits s1 0 in
-                let v' := if neg then Z.max (- v) (- LONG_MAXZ - 1) else Z.min v LONG_MAXZ in
-                (to_int32 v', rest)
-              else (0, line)
-  | [] => (0, line)
-  end.
+Definition strtol10 (line : str) : Z * str := let '(v, rest) := strtol_long line in (to_int32 v, rest).
 
 Fixpoint word (s : str) : str * str := match s with c :: r => if isspace c then ([], s) else let (a, b) := word r in (c :: a, b) | [] => ([], []) end.
 Fixpoint toks (fuel : nat) (slots : nat) (s : str) : list str :=
